@@ -40,7 +40,7 @@ head = sh("git -C /repo rev-parse HEAD").stdout.strip()
 if not os.path.isdir(WT):
     r = sh(f"git -C /repo worktree add --detach {WT} {head}")
     assert r.returncode == 0, r.stderr
-sh("git checkout -q -- . && git clean -fdq -e target -e delta.orig", cwd=WT)
+sh("git reset -q --hard && git clean -fdq -e target -e delta.orig", cwd=WT)
 sh(f"git checkout -q --detach {head}", cwd=WT)
 res = dict(property=pid, name=name, source=src, base=head[:7], at=time.strftime("%H:%M"))
 b0 = sh("cargo build --offline 2>&1 | tail -2", cwd=WT)
@@ -54,8 +54,8 @@ if a.returncode != 0:
 res["applies"] = a.returncode == 0
 b = sh("cargo build --offline 2>&1 | tail -2", cwd=WT)
 res["builds"] = "Finished" in b.stdout
-d0 = sh(f"sh {src}/demo.sh {orig}", cwd=src)
-d1 = sh(f"sh {src}/demo.sh {WT}/target/debug/delta", cwd=src)
+d0 = sh(f"bash {src}/demo.sh {orig}", cwd=src)
+d1 = sh(f"bash {src}/demo.sh {WT}/target/debug/delta", cwd=src)
 res["demo_orig_rc"], res["demo_changed_rc"] = d0.returncode, d1.returncode
 t = sh("cargo test --offline 2>&1 | grep -E '^test result' | head -3", cwd=WT)
 res["tests"] = t.stdout.strip().replace("\n", " | ")[:200]
@@ -102,7 +102,7 @@ if ok:
     meta["verif_confirmation"] = {k: res[k] for k in ("base", "applies", "builds", "demo_orig_rc", "demo_changed_rc", "tests")}
     meta["verif_checks"] = checks
     json.dump(meta, open(os.path.join(dst, "meta.json"), "w"), indent=1)
-sh("git checkout -q -- . && git clean -fdq -e target -e delta.orig", cwd=WT)
+sh("git reset -q --hard && git clean -fdq -e target -e delta.orig", cwd=WT)
 with open(os.path.join(ROOT, "seeded", "results.jsonl"), "a") as f:
     f.write(json.dumps(res) + "\n")
 print(json.dumps(res, indent=1)[:2500])
